@@ -25,6 +25,7 @@ func runC06(c *Ctx, r *Report) {
 	c06Flags(c, r)
 	c06JSON(c, r)
 	c06BothCases(c, r)
+	c06LiteralsNotInferred(c, r)
 }
 
 // ---- R06.1 -----------------------------------------------------------------
